@@ -36,6 +36,14 @@ ASSUMPTIONS = [
     "the AtomBase stream, where term evaluation and solver must raise alike)",
     "blanks are spaces; number literals are digits[.digits][e digits] or .digits[e digits] "
     "(a sign inside a literal is split by the tokenizer; exotic float() spellings are outside the grammar)",
+    "no numeric tolerance is used anywhere: AtomBase results are compared by VALUE equality (True == 1 == 1.0, "
+    "nan == nan) with the float evaluation of the term -- justified because both sides apply the same IEEE "
+    "operations in the same order (the regenerated AtomBase method table pins each method to its Python "
+    "operator, fact_atombase_ops); the only identification is neg(neg a) = a, which is exact in IEEE-754",
+    "strings in no class of the property (recogniser class 'other': '()', adjacent operands, stray characters, "
+    "exotic float spellings) get no verdict AND an impl/model difference on them is only counted "
+    "(other.impl_ne_model), it cannot fail the check; the float-literal recogniser is judged on candidates over "
+    "the grammar's literal alphabet only",
     "the reference recogniser (harness/props/c01_lang.py, longest-match lexer + recursive descent over the "
     "stratified grammar) defines well-formed / unbalanced / wrong-arity / missing-operand; strings in no class "
     "(e.g. '()', adjacent operands, stray characters) get no verdict, only impl = model is compared",
@@ -57,6 +65,7 @@ EXTRA_OBLIGATIONS = [
     "SciVerif.C01.fact_not", "SciVerif.C01.fact_fn1", "SciVerif.C01.fact_fn2",
     "SciVerif.C01.fact_fn1_noclash", "SciVerif.C01.fact_fn2_noclash",
     "SciVerif.C01.fact_par_shape", "SciVerif.C01.fact_open_taken",
+    "SciVerif.C01.fact_atombase_ops",
 ]
 
 GEN = core.LEAN / "SciVerif" / "Generated" / "C01Tables.lean"
@@ -69,13 +78,14 @@ def gen_tables(ctx):
     with np.errstate():      # probing executes the operate_* methods: keep numpy's error mode of this process
         before = np.geterr()
         cfg = P.default_config()
+        atom_rows = P.probe_atombase()
         if np.geterr() != before:
             ctx.notes.append("abstract probing of the operate_* methods changed numpy's error mode: %s -> %s"
                              % (before, np.geterr()))
     doc = P.doc_steps((core.REPO / "docs" / "source" / "solver" / "index.rst").read_text())
     ctx.extra["table_rows"] = len(cfg["rows"])
     ctx.extra["sign_rows"] = sum(len(v) for v in cfg["sign"].values())
-    return [str(GEN)] if core.write_if_changed(GEN, P.render_c01(cfg, doc)) else []
+    return [str(GEN)] if core.write_if_changed(GEN, P.render_c01(cfg, doc, atom_rows)) else []
 
 
 # ---------------------------------------------------------------- helpers
@@ -127,6 +137,14 @@ def judge_text(ctx, text, cls, ast_eval, model, opname, where):
         return impl
     mod = L.canon_model(model, opname)
     if impl != mod:
+        if cls == "other":
+            # outside the grammar and outside the malformed classes the property names: no verdict, and a
+            # difference between code and model here is only counted (it must never fail the check)
+            ctx.count("other.impl_ne_model")
+            if len([n for n in ctx.notes if n.startswith("outside the property's domain")]) < 3:
+                ctx.notes.append("outside the property's domain, impl != model (not judged): %r impl %s model %s"
+                                 % (text, json.dumps(impl)[:80], json.dumps(mod)[:80]))
+            return impl
         ctx.disagreement("solve:" + where, {"text": text, "class": cls}, "impl %s model %s" % (impl, mod))
     stock = None
     if cls == "wf":
@@ -198,7 +216,10 @@ def lit_stream(ctx, count):
         except ValueError:
             py = False
         if "ok" not in r or r["ok"] != py:
-            ctx.disagreement("float-literal", {"text": c}, "float() accepts: %s, model: %s" % (py, r))
+            if c and all(ch in "0123456789.e" for ch in c):
+                ctx.disagreement("float-literal", {"text": c}, "float() accepts: %s, model: %s" % (py, r))
+            else:
+                ctx.count("lit.outside_grammar_alphabet_ne")      # outside the property's domain: counted only
 
 
 def ast_stream(ctx, asts, edit_every, n_sample, where="ast"):
@@ -409,6 +430,79 @@ def chain_stream(ctx, reqs):
                           "floats %s" % (rq["operands"], text[:40], stock, via), replay)
 
 
+CLOSE_PAIRS = [
+    # unequal but close operands (relative 1e-9 ... 1e-5), large near-equal integers, rounding-noise pairs
+    ("100000", "100001"), ("1000000", "1000001"), ("0.1+0.2", "0.3"), ("1000001/1000000", "1"), ("2**20+1", "2**20"),
+    ("1e9", "1000000001"), ("1.000001", "1.0000011"), ("3*0.1", "0.3"), ("1.00000001", "1"), ("123456789", "123456788"),
+    ("0.30000000000000004", "0.3"), ("1e15+1", "1e15"), ("2/3", "0.6666666"), ("1e-9", "1.00001e-9"),
+    # and exactly equal / clearly different ones
+    ("0.5+0.25", "0.75"), ("2*3", "6"), ("1", "2"), ("7", "7"),
+]
+CMP = ["eq", "ne", "le", "ge", "lt", "gt"]
+
+
+def compare_family():
+    out = []
+    for a, b in CLOSE_PAIRS:
+        ea, eb = L.classify(a)[1], L.classify(b)[1]
+        for o in CMP:
+            out.append(["bin", o, ea, eb])
+            out.append(["bin", o, eb, ea])
+        out.append(["not", ["bin", "eq", ea, eb]])
+        out.append(["bin", "and", ["bin", "eq", ea, eb], ["bin", "ne", ea, eb]])
+    return out
+
+
+def gen_close_pairs(rng, n):
+    """random operand pairs that differ by a relative 1e-9 ... 1e-5, and large integers that differ by one"""
+    out = []
+    for _ in range(n):
+        if rng.random() < 0.5:
+            m = rng.randint(10 ** 5, 10 ** 12)
+            out.append((str(m), str(m + rng.choice([1, 1, 2, 3]))))
+        else:
+            x = rng.uniform(0.001, 1000.0)
+            rel = 10.0 ** rng.uniform(-9, -5)
+            a, b = "%.17g" % x, "%.17g" % (x * (1 + rel))
+            if "e" in a or "e" in b or a == b:
+                continue
+            out.append((a, b))
+    return out
+
+
+def consistency_stream(ctx, pairs):
+    """stock AtomBase: the six comparisons of one operand pair must be mutually consistent and equal Python's own
+    comparison of the two operand values (finite operands only)"""
+    for a, b in pairs:
+        va, vb = L.run_stock(a), L.run_stock(b)
+        if not (isinstance(va, L.Val) and isinstance(vb, L.Val)):
+            continue
+        x, y = va.v, vb.v
+        try:
+            if x != x or y != y or abs(x) == float("inf") or abs(y) == float("inf"):
+                continue
+        except Exception:
+            continue
+        res = {}
+        for o in CMP:
+            r = L.run_stock("%s %s %s" % (a, L.B2_SYM[o], b))
+            res[o] = bool(r.v) if isinstance(r, L.Val) else "err"
+        ctx.count("compare.pairs")
+        ctx.case("cmp:%s|%s" % (a, b), True, None)
+        want = {"eq": x == y, "ne": x != y, "le": x <= y, "ge": x >= y, "lt": x < y, "gt": x > y}
+        incons = [t for t in (("eq", "ne"), ("lt", "ge"), ("le", "gt"))
+                  if "err" not in (res[t[0]], res[t[1]]) and res[t[0]] == res[t[1]]]
+        if res != want or incons:
+            ctx.violation("wf-value-atombase-compare",
+                          "AtomBase comparisons of %r and %r (values %r, %r): solver gives %s, the comparison of the "
+                          "values gives %s%s" % (a, b, x, y, res, want,
+                                                  ("; %s and its negation %s are both %s" %
+                                                   (incons[0][0], incons[0][1], res[incons[0][0]])) if incons else ""),
+                          {"stream": "compare", "text": "%s == %s" % (a, b), "class": "wf", "a": a, "b": b,
+                           "solver": res, "values": want})
+            return
+
+
 def small_family():
     """systematic small expressions: every ordered pair of binary operators over three operands, with a sign
     on each operand position, every call form, sign runs, `!`."""
@@ -462,6 +556,9 @@ def correspond(ctx: Ctx):
     ast_stream(ctx, corpus_asts, 1, 60, "corpus")
     text_stream(ctx, bad_corpus, "corpus-malformed")
     ast_stream(ctx, small_family(), 7, 20, "small")
+    # comparison operands that are unequal but close, all six operators, both orders
+    ast_stream(ctx, compare_family(), 1000, 0, "compare")
+    consistency_stream(ctx, CLOSE_PAIRS + gen_close_pairs(rng, 200 if thorough else 40))
     # deep nesting: plain parentheses, one function, mixed calls, 60-120 levels
     deep = []
     for f, d in (("par", 70 if not thorough else 120), ("sin", 40 if not thorough else 80), (None, 30 if not thorough else 60)):
